@@ -221,8 +221,10 @@ class HFn:
             return 'HCond.not (%s)' % self.hcond(ks[0])
         if k == 'BinaryOperator' and n.get('opcode') in ('&&', '||'):
             return 'HCond.%s (%s) (%s)' % ('and' if n['opcode'] == '&&' else 'or', self.hcond(ks[0]), self.hcond(ks[1]))
-        if k == 'BinaryOperator' and n.get('opcode') in ('<', '>'):
-            return 'HCond.%s (%s) (%s)' % ('ilt' if n['opcode'] == '<' else 'igt', self.iexp(ks[0]), self.iexp(ks[1]))
+        if k == 'BinaryOperator' and n.get('opcode') in ('<', '>', '<=', '>=', '==', '!='):
+            op = {'<': 'ilt', '>': 'igt', '<=': 'ile', '>=': 'ige', '==': 'ieq', '!=': 'ieq'}[n['opcode']]
+            t = 'HCond.%s (%s) (%s)' % (op, self.iexp(ks[0]), self.iexp(ks[1]))
+            return 'HCond.not (%s)' % t if n['opcode'] == '!=' else t
         if k == 'CallExpr':
             cal = self.callee(n)
             if cal == 'gsl_isnan':
